@@ -106,8 +106,12 @@ def pure_b(repo: Repo) -> List[Ob]:
         cd = {n for n in cfg.nodes for x in walk_node(n) if method_call(x) and method_call(x)[1] == "compute_dimensions" and src(method_call(x)[0]) == opn}
         reads = [(n, x) for n in cfg.nodes for x in walk_node(n)
                  if isinstance(x, ast.Attribute) and x.attr in ("operator", "_operator") and src(x.value) == opn and isinstance(x.ctx, ast.Load)]
-        if not cd or not reads:
-            raise AnalysisError(f"PURE-b: {q}: compute_dimensions calls {len(cd)}, operator reads {len(reads)}")
+        if not reads:
+            raise AnalysisError(f"PURE-b: {q}: no read of {opn}.operator found")
+        if not cd:
+            obs.append(bad("PURE-b", fi, "operator-read#1", P, reads[0][1],
+                           f"{q} never calls {opn}.compute_dimensions(): the operator is built with whatever dimensions the previous target left behind"))
+            continue
         # the dispatch on operation._operation_type is exhaustive over the operation-type enums the
         # container accepts (foreign types are rejected by the operand validation, C17): the fall-through
         # of the *last* arm of a chain whose arms compute the dimensions is not a feasible path
